@@ -166,6 +166,10 @@ func ValidateIssuer(issuer string, allowInsecure bool) error {
 			return ErrInvalidIssuerHTTPS
 		}
 	}
+	// an empty query or fragment ("https://host/path?", "...#") leaves no trace in the parsed URL
+	if strings.ContainsAny(issuer, "?#") {
+		return ErrInvalidIssuerPath
+	}
 	return ValidateIssuerPath(u)
 }
 
